@@ -29,6 +29,7 @@ def parseUnit (s : String) : Option StartTLS.Unit :=
   else if s == "P" then some .proceed
   else if s == "F" then some .failure
   else if s == "E" then some .streamErr
+  else if s == "D" then some .streamErrD
   else if s == "G" then some .tlsOther
   else if s == "O" then some .foreign
   else if s == "W" then some .space
